@@ -35,7 +35,51 @@ def cli_histories(rng: random.Random, n_assets: int = 1, profile: Optional[Profi
                 break
         else:
             raise RuntimeError("could not generate a valid history")
+    # shapes every CLI workload sees now and then: an account left with a dust balance, an asset with a long name
+    shape = rng.random()
+    if shape < 0.08:
+        add_dust_account(rng, result[rng.choice(sorted(result))])
+    elif shape < 0.16:
+        result = rename_asset(result, sorted(result)[-1], LONG_ASSET)
     return result
+
+
+LONG_ASSET = "LONGNAMEDASSET1234567890XYZW"  # 28 characters: longer than the 31-character sheet-name habit of other spreadsheet formats allows once " In-Out" is appended
+
+
+def rename_asset(hists: Dict[str, Dict[str, Any]], old: str, new: str) -> Dict[str, Dict[str, Any]]:
+    """Same histories with one asset under another name (unique ids are kept)."""
+    out: Dict[str, Dict[str, Any]] = {}
+    for asset, hist in hists.items():
+        if asset == old:
+            out[new] = dict(hist, asset=new)
+        else:
+            out[asset] = hist
+    return out
+
+
+def add_dust_account(rng: random.Random, hist: Dict[str, Any]) -> None:
+    """Append a purchase and a slightly smaller sale on an otherwise unused account, leaving it a final balance of 1e-11 ..
+    4e-11 (non-zero, but below the 1e-10 tolerance RP2 uses for negative-balance checks)."""
+    from datetime import timedelta
+    from decimal import Decimal
+
+    from rpv.gen import dstr, fmt_ts, parse_ts
+
+    exchange = "Ledger"
+    if exchange not in hist["exchanges"]:
+        hist["exchanges"] = list(hist["exchanges"]) + [exchange]
+    holder = rng.choice(hist["holders"])
+    if any((r.get("ex"), r.get("ho")) == (exchange, holder) or (r.get("fex"), r.get("fho")) == (exchange, holder) or (r.get("tex"), r.get("tho")) == (exchange, holder) for r in hist["rows"]):
+        return
+    last = max(parse_ts(r["ts"]) for r in hist["rows"])
+    base = Decimal(rng.choice(("0.5", "1", "0.125", "2")))
+    dust = Decimal(rng.randint(1, 4)) / Decimal(10**11)
+    next_row = max(r["row"] for r in hist["rows"]) + 1
+    n_in = sum(1 for r in hist["rows"] if r["t"] == "IN") + 1
+    n_out = sum(1 for r in hist["rows"] if r["t"] == "OUT") + 1
+    hist["rows"].append({"t": "IN", "row": next_row, "ts": fmt_ts(last + timedelta(days=1), 0), "ex": exchange, "ho": holder, "type": "BUY", "spot": "100", "cin": dstr(base + dust), "cfee": None, "fin_nf": None, "fin_wf": None, "ffee": None, "uid": f"{hist['asset']}-IN-dust{n_in}", "notes": ""})
+    hist["rows"].append({"t": "OUT", "row": next_row + 1, "ts": fmt_ts(last + timedelta(days=2), 0), "ex": exchange, "ho": holder, "type": "SELL", "spot": "110", "cout": dstr(base), "cfee": "0", "cout_wf": None, "fout_nf": None, "ffee": None, "uid": f"{hist['asset']}-OUT-dust{n_out}", "notes": ""})
 
 
 def method_choice(rng: random.Random, country: str, hists: Dict[str, Dict[str, Any]]) -> Tuple[List[str], Optional[Dict[int, str]], Dict[int, str], str]:
